@@ -1355,7 +1355,7 @@ fn mutate(args: &[String]) {
             let n = bytes.len();
             let small = n <= 64;
             // position sample: all positions for small inputs and headers; a seeded sample otherwise
-            let budget = if thorough { 300 } else { 48 };
+            let budget = if thorough { 200 } else { 48 };
             let positions: Vec<usize> = if n <= budget { (0..n).collect() } else {
                 let mut p: Vec<usize> = (0..(budget / 2).min(n)).collect();
                 while p.len() < budget { p.push(srng.below(n)); }
